@@ -27,6 +27,8 @@ struct Interpose {
   std::function<void(const std::string& path, int flags)> onOpened;
   // every write(2) on an fd > 2 whose path is under base or equals kmsgPath
   std::function<void(const std::string& path, const std::string& data)> onWrite;
+  // same selection of fds; return an errno (>0) to make the write(2) fail instead of being performed
+  std::function<int(const std::string& path, const std::string& data)> onWriteErr;
   std::string kmsgPath;
   bool clearDType{false}; // readdir reports DT_UNKNOWN (file systems without d_type)
   bool logXattr{false};
